@@ -7,6 +7,8 @@ package verifrt
 
 import (
 	"encoding/json"
+
+	toml "github.com/pelletier/go-toml/v2"
 	"fmt"
 	"math"
 	"os"
@@ -163,4 +165,14 @@ func Run(table map[string]func()) (line string, failed bool) {
 	}()
 	h()
 	return "REPLAY-RESULT kind=ok", false
+}
+
+// TOMLBytes turns a decoded-configuration value into file content. Natively the value is marshalled to TOML and
+// goes through the real decoder; symbolically the decoder is a stub that yields exactly this value (or fails).
+func TOMLBytes(v interface{}) []byte {
+	b, err := toml.Marshal(v)
+	if err != nil {
+		panic(Failure{"assume", "value cannot be written as TOML: " + err.Error()})
+	}
+	return b
 }
